@@ -20,7 +20,7 @@ RULE = ("case = (solver x noise cell, fixed|adaptive, ts/dt layout, SDE seed); n
         "distinct = distinct case keys")
 ASSUMPTIONS = ["float64 central differences eps=1e-6: truncation+rounding error ~1e-9 relative; threshold 1e-6",
                "adaptive: 'away from accept/reject boundaries' is realised by freezing the recorded schedule"]
-REQUIRED_COUNTERS = ["fixed_runs", "adaptive_runs", "adaptive_rejections_replayed", "error_control_calls",
+REQUIRED_COUNTERS = ["float32_parameter_modules", "fixed_runs", "adaptive_runs", "adaptive_rejections_replayed", "error_control_calls",
                      "unaligned_outputs", "wrt_params_only", "wrt_y0_only", "wrt_both", "plain_object_sde", "logqp_losses", "chunked_resumed_solves"]
 THRESHOLDS = {"rel": 1e-6}
 
@@ -185,6 +185,39 @@ def run_case(case):
     else:
         cnt["fixed_runs"] = 1
         nt = nsteps >= 3 and abs(fd) > 1e-6
+    # mixed precision the library accepts: a module whose parameters are float32, state and Brownian motion float64 (the
+    # generated SDEs promote their parameters to the state's dtype). The solution is a function of the CALLER's
+    # parameters: their gradients must exist and equal those of the same module converted to float64 (float32 -> float64
+    # is exact, and both runs compute in float64), up to the float32 rounding of the returned gradient tensors.
+    mrng = random.Random(case["rseed"] + 17)
+    if not case["adaptive"] and not plain and not logqp and not chunked and wrt != "y0_only" and mrng.random() < 0.5:
+        s32 = copy.deepcopy(sde).float()
+        s64 = copy.deepcopy(s32).double()
+        res = []
+        for sx in (s32, s64):
+            yx = y0v.clone().requires_grad_(True)
+            Lx = loss(sx, yx, probes.SolverProbe(keep_states=False))
+            px = list(sx.parameters())
+            res.append((Lx, torch.autograd.grad(Lx, [yx] + px, allow_unused=True)))
+        cnt["float32_parameter_modules"] = 1
+        (L32, g32), (L64, g64) = res
+        if not torch.equal(L32.detach(), L64.detach()):
+            viol.append({"mechanism": "float32_parameters:solution_differs_from_float64_copy",
+                         "detail": f"{float(L32)!r} vs {float(L64)!r} {ctx0}"})
+        for i_, (ga, gb) in enumerate(zip(g32, g64)):
+            if (ga is None) != (gb is None):
+                viol.append({"mechanism": "float32_parameters:gradient_missing",
+                             "detail": f"input {i_} ({'y0' if i_ == 0 else 'parameter'}): float32 module grad is "
+                                       f"{'None' if ga is None else 'set'}, float64 copy grad is "
+                                       f"{'None' if gb is None else 'set'} {ctx0}"})
+                break
+            if ga is not None:
+                e_ = float((ga.double() - gb).abs().max() / (1e-12 + gb.abs().max()))
+                mx["float32_parameter_grad_rel"] = max(mx.get("float32_parameter_grad_rel", 0.0), e_)
+                if e_ > 1e-5:
+                    viol.append({"mechanism": "float32_parameters:gradient_differs_from_float64_copy",
+                                 "detail": f"input {i_} rel {e_:.3e} {ctx0}"})
+                    break
     return {"violations": viol, "counters": cnt, "max": mx, "nontrivial": nt,
             "sample": {"cell": zoo.cell_name(cell), "adaptive": case["adaptive"], "steps": nsteps,
                        "rejected": cnt.get("adaptive_rejections_replayed"), "autograd": an, "fd": fd, "rel": rel}}
